@@ -7,6 +7,7 @@ A *case* is a detector (grid shape, pixel size, subsampling, kind) and a history
     ('call', input-kind, data, dt, weight)  detector(...)  (= integrate + read_out)
     ('scribble', k, value)                  the caller overwrites the k-th image it got back
     ('reuse', j, data)                      the caller overwrites the buffer it passed to the j-th integrate
+    ('bad', variant, data, dt, weight)      detector.integrate(<power of the wrong size>): must raise and leave the state alone
 
 The oracle keeps its own exact (Fraction) account of what every read-out must be: brute-force
 index loops for the binning, sum over the integrations since the last read-out, independent of the
@@ -22,7 +23,8 @@ from harness.common import rat, rat_list, Fraction, parse_rat_list, dyadic, Mach
 
 TOL = 1e-9
 
-INPUT_KINDS = ['field', 'wavefront', 'plain', 'intfield', 'boolfield', 'list']
+INPUT_KINDS = ['field', 'wavefront', 'plain', 'intfield', 'boolfield', 'list', 'foreignfield']
+BAD_VARIANTS = ['plain', 'list', 'field', 'scalar']
 
 
 # ---------------------------------------------------------------------------------------------
@@ -41,6 +43,12 @@ def gen_case(rng, big):
     npix = int(np.prod(dims))
     nin = npix * s ** ndim
     case = {'dims': dims, 'delta': delta, 's': s, 'kind': kind}
+    if rng.random() < 0.15 and min(dims) >= 2:      # (the weights of a separated grid need two points per axis)
+        # a detector grid with separated, non-regular coordinates (subsampling 1: a supersampled input grid only exists
+        # for regular grids); NoisyDetector then goes through the non-regular branch of subsample_field
+        s = case['s'] = 1
+        nin = npix
+        case['axes'] = [np.cumsum([0.0] + [float(rng.choice([0.25, 0.5, 1.0, 1.5])) for _ in range(d - 1)]).tolist() for d in dims]
     if kind == 'noisy-det':
         case['dark'] = dyadic(rng, 0, 4, 3)
         case['flat'] = [dyadic(rng, 0.5, 1.5, 4) for _ in range(npix)]
@@ -65,7 +73,10 @@ def gen_case(rng, big):
         elif u < pr + 0.12 and nints > 0:
             ops.append(['reuse', int(rng.integers(0, nints)), [dyadic(rng, 0, 16, 3) for _ in range(nin)]])
         else:
-            ik = str(rng.choice(INPUT_KINDS, p=[0.35, 0.25, 0.15, 0.1, 0.05, 0.1]))
+            if rng.random() < 0.07:
+                ops.append(gen_bad(rng, npix, nin))
+                continue
+            ik = str(rng.choice(INPUT_KINDS, p=[0.32, 0.24, 0.14, 0.1, 0.05, 0.1, 0.05]))
             if ik == 'wavefront':
                 data = [[dyadic(rng, -2, 2, 3) for _ in range(nin)], [dyadic(rng, -2, 2, 3) for _ in range(nin)]]
             elif ik == 'intfield':
@@ -93,6 +104,18 @@ def gen_case(rng, big):
     if kind == 'noisy-set':
         add_setters(rng, case, npix)
     return case
+
+
+def gen_bad(rng, npix, nin):
+    """an integration whose power has not the size of the input grid (wrong-size array, Field on a grid of another
+    size, a bare scalar)"""
+    sizes = sorted({n for n in (nin - 1, nin + 1, 2 * nin, npix, 1, nin + npix, 0) if n >= 0 and n != nin})
+    variant = str(rng.choice(BAD_VARIANTS, p=[0.4, 0.15, 0.35, 0.1]))
+    if variant == 'scalar' and nin == 1:
+        variant = 'plain'
+    n = 1 if variant == 'scalar' else int(rng.choice([k for k in sizes if k > 0 or variant != 'field']))
+    data = [dyadic(rng, 0, 16, 3) for _ in range(n)]
+    return ['bad', variant, data, dyadic(rng, 0.25, 4, 2), float(rng.choice([1.0, 0.5, 2.0]))]
 
 
 PARAMS = ['flat_field', 'dark_current_rate', 'read_noise', 'include_photon_noise']
@@ -179,6 +202,11 @@ def _ones(n, v=1.0):
 
 
 DIRECTED = [
+    # detector grids with non-regular separated coordinates (subsampling 1)
+    D('noisy-off', [3, 2], 1, [['int', 'field', [1.0, 2, 3, 4, 5, 6], 0.5, 2.0, False], ['int', 'plain', [1.0, 0, 1, 0, 1, 0], 1.0, 1.0, False], ['read'], ['read']],
+      axes=[[0.0, 0.5, 2.0], [0.0, 1.5]]),
+    D('noiseless', [2, 2], 1, [['int', 'foreignfield', [1.0, 2, 3, 4], 1.0, 1.0, False], ['read'], ['call', 'field', [4.0, 3, 2, 1], 2.0, 1.0, False]],
+      axes=[[0.0, 0.25], [1.0, 3.0]]),
     # parameter setters: scalar 0 (constructor default) -> explicit map -> the same scalar again, then everything off
     D('noisy-set', [2, 2], 1, [['int', 'field', [1.0, 2, 3, 4], 1.0, 1.0, False], ['read'],
                                ['set', 'flat_field', ['array', [2.0, 0.5, 1.5, 1.0]]], ['int', 'field', [1.0, 2, 3, 4], 1.0, 1.0, False], ['read'],
@@ -190,6 +218,18 @@ DIRECTED = [
       ctor={'flat_field': ['field', [1.0, 1.0]], 'dark_current_rate': ['scalar', 2.0], 'read_noise': ['scalar', 0.5], 'include_photon_noise': ['bool', True]}),
     D('noiseless', [2, 2], 1, [['read']]),
     D('noisy-off', [2, 2], 1, [['read']]),
+    # powers of the wrong size: every detector kind must refuse them and stay as it was
+    D('noiseless', [2, 2], 1, [['int', 'field', [1.0, 2, 3, 4], 1.0, 1.0, False], ['bad', 'plain', [1.0, 2, 3, 4, 5, 6], 1.0, 1.0], ['read'],
+                               ['bad', 'scalar', [3.0], 1.0, 1.0], ['read']]),
+    D('noiseless', [2, 2], 1, [['bad', 'field', [float(i) for i in range(9)], 1.0, 1.0], ['read']]),
+    D('noiseless', [2, 1], 2, [['bad', 'plain', [1.0, 2.0], 1.0, 1.0], ['int', 'field', [1.0, 2, 3, 4, 5, 6, 7, 8], 1.0, 1.0, False], ['read']]),
+    D('noisy-off', [2, 2], 1, [['int', 'field', [1.0, 2, 3, 4], 1.0, 1.0, False], ['bad', 'list', [1.0, 2, 3], 1.0, 1.0], ['read']]),
+    D('noisy-det', [2, 1], 1, [['bad', 'field', [1.0, 2, 3], 1.0, 1.0], ['read'], ['int', 'field', [1.0, 2], 1.0, 1.0, False], ['read']],
+      dark=1.5, flat=[1.0, 0.5]),
+    # a Field of the right size that lives on some other grid: the image is still on the detector grid
+    D('noiseless', [2, 2], 1, [['int', 'foreignfield', [1.0, 2, 3, 4], 1.0, 1.0, False], ['read']]),
+    D('noiseless', [2, 2], 2, [['int', 'foreignfield', [float(i) for i in range(16)], 1.0, 1.0, False], ['read']]),
+    D('noisy-off', [2, 2], 1, [['int', 'foreignfield', [1.0, 2, 3, 4], 1.0, 1.0, False], ['read']]),
     D('noiseless', [3, 2], 1, [['int', 'field', [1.0, 2, 3, 4, 5, 6], 1.0, 1.0, True], ['read'], ['read'],
                                ['int', 'field', [1.0, 2, 3, 4, 5, 6], 0.5, 3.0, False], ['read']]),
     D('noiseless', [2, 1], 2, [['int', 'field', [1.0, 2, 3, 4, 5, 6, 7, 8], 1.0, 1.0, True], ['read']]),
@@ -220,6 +260,8 @@ def make_detector(case):
     dims = case['dims']
     extent = [d * n for d, n in zip(case['delta'], dims)]
     grid = hcipy.make_uniform_grid(dims, extent)
+    if 'axes' in case:
+        grid = hcipy.CartesianGrid(hcipy.SeparatedCoords([np.array(a, dtype=float) for a in case['axes']]))
     s = case['s']
     if case['kind'] == 'noiseless':
         det = hcipy.NoiselessDetector(grid, s)
@@ -267,8 +309,23 @@ def make_input(det, ik, data):
     if ik == 'boolfield':
         a = hcipy.Field(np.array(data, dtype=bool), g)
         return a, a, np.array(data, dtype=float)
+    if ik == 'foreignfield':
+        # the right number of samples, on a grid object that is not (and does not equal) the input grid
+        a = hcipy.Field(np.array(data, dtype=float), g.scaled(3.0).shifted(np.ones(g.ndim)))
+        return a, a, a.copy()
     a = hcipy.Field(np.array(data, dtype=float), g)
     return a, a, a.copy()
+
+
+def make_bad_input(variant, data):
+    import hcipy
+    if variant == 'scalar':
+        return float(data[0])
+    if variant == 'list':
+        return list(data)
+    if variant == 'field':
+        return hcipy.Field(np.array(data, dtype=float), hcipy.make_uniform_grid([len(data)], [float(len(data))]))
+    return np.array(data, dtype=float)
 
 
 def fr(x):
@@ -354,6 +411,30 @@ def run_real(case):
             note_param(prm, case['ctor'][prm], o0)
         if o0['bad']:
             return [dict(op='ctor', status='ok', **o0)], model
+
+    # reference-level model (noiseless detector): the arrays the caller holds, in the order they were handed out
+    refm = case['kind'] == 'noiseless'
+    handles = []          # real object or None (no array object on the caller's side: list, Wavefront, wrong-size input)
+    img_handle = []       # handle of the k-th image
+    inp_handle = []       # handle of the buffer of the j-th successful integration
+
+    def rline(o, line, kind, payload=None):
+        model.append(line)
+        o.setdefault('rchecks', []).append((len(model) - 1, kind, payload))
+
+    def grid_label(im):
+        gr = getattr(im, 'grid', None)
+        if gr is not None and (gr is grid or gr == grid):
+            return 'detector'
+        if gr is not None and (gr is det.input_grid or gr == det.input_grid):
+            return 'input'
+        return 'foreign'
+
+    def rdump(o):
+        real = [None if h is None else np.array(np.asarray(h), dtype=float).ravel().tolist() for h in handles]
+        share = [(a, b) for a in range(len(handles)) for b in range(a + 1, len(handles))
+                 if handles[a] is not None and handles[b] is not None and np.shares_memory(np.asarray(handles[a]), np.asarray(handles[b]))]
+        rline(o, 'C17 rdump', 'dump', (real, share))
 
     def check_alias(o):
         for k, (im, snap) in enumerate(images):
@@ -450,16 +531,53 @@ def run_real(case):
             model.append('C17 read')
             o['model_idx'] = len(model) - 1
             do_read(o)
+            if 'got' in o and not o['bad']:
+                rline(o, 'C17 tread', 'exact', 'ok ' + grid_label(images[-1][0]))
+            if refm and 'got' in o and not o['bad']:
+                rline(o, 'C17 rread', 'read', o['got'])
+                img_handle.append(len(handles))
+                handles.append(images[-1][0])
         elif op[0] in ('int', 'call'):
             _, ik, data, dt, w, asint = op
             do_int(o, ik, data, dt, w, asint)
             if 'power' in o:
                 model.append('C17 int %s %s %s' % (rat_list(o['power']), rat(dt), rat(w)))
                 o['model_int_idx'] = len(model) - 1
+            if 'power' in o and o['status'] == 'ok':
+                rline(o, 'C17 tint %s' % ('foreign' if ik == 'foreignfield' else 'plain' if ik in ('plain', 'list') else 'input'), 'ok')
+            if refm and 'power' in o and o['status'] == 'ok':
+                rline(o, 'C17 ralloc %s' % rat_list(o['power']), 'ok')
+                rline(o, 'C17 rint %d %s %s' % (len(handles), rat(dt), rat(w)), 'ok')
+                inp_handle.append(len(handles))
+                handles.append(inputs[-1][0] if ik in ('field', 'plain', 'foreignfield', 'intfield', 'boolfield') else None)
             if op[0] == 'call' and not o['bad']:
                 model.append('C17 read')
                 o['model_idx'] = len(model) - 1
                 do_read(o)
+                if 'got' in o and not o['bad']:
+                    rline(o, 'C17 tread', 'exact', 'ok ' + grid_label(images[-1][0]))
+                if refm and 'got' in o and not o['bad']:
+                    rline(o, 'C17 rread', 'read', o['got'])
+                    img_handle.append(len(handles))
+                    handles.append(images[-1][0])
+        elif op[0] == 'bad':
+            _, variant, data, dt, w = op
+            obj = make_bad_input(variant, data)
+            model.append('C17 int %s %s %s' % (rat_list(data), rat(dt), rat(w)))
+            o['model_bad_idx'] = len(model) - 1
+            o['bad_variant'] = variant
+            try:
+                det.integrate(obj, dt, w)
+                o['status'] = 'ok'
+                acc = getattr(det, 'accumulated_charge', None)
+                o['bad'].append(('wrong-size-accepted', 'integrate(<%s with %d values>) on a detector whose input grid has %d points did not raise '
+                                 '(accumulated charge now has shape %r)' % (variant, len(data), det.input_grid.size, np.shape(acc))))
+            except Exception as e:  # noqa
+                o['status'] = 'raises:' + type(e).__name__
+            if refm and o['status'].startswith('raises'):
+                rline(o, 'C17 ralloc %s' % rat_list(data), 'ok')
+                rline(o, 'C17 rint %d %s %s' % (len(handles), rat(dt), rat(w)), 'err value')
+                handles.append(None)
         elif op[0] == 'set':
             prm, spec = op[1], op[2]
             if prm == 'flat_field':
@@ -477,6 +595,8 @@ def run_real(case):
                 try:
                     im[...] = op[2]
                     images[k] = (im, np.array(np.asarray(im), copy=True))
+                    if refm and k < len(img_handle):
+                        rline(o, 'C17 rwrite %d %s' % (img_handle[k], rat_list([float(x) for x in np.asarray(im, dtype=float).ravel()])), 'ok')
                 except Exception:  # noqa  (read-only image: nothing to scribble on)
                     pass
         elif op[0] == 'reuse':
@@ -490,12 +610,16 @@ def run_real(case):
                     else:
                         buf[...] = vals.astype(buf.dtype)
                     inputs[j] = (buf, np.array(np.asarray(buf), copy=True))
+                    if refm and j < len(inp_handle) and handles[inp_handle[j]] is not None:
+                        rline(o, 'C17 rwrite %d %s' % (inp_handle[j], rat_list([float(x) for x in np.asarray(buf, dtype=float).ravel()])), 'ok')
                 except Exception:  # noqa
                     pass
         else:
             raise MachineryError('unknown op %r' % (op,))
         if not o['bad']:
             check_alias(o)
+        if refm and not o['bad']:
+            rdump(o)
         obs.append(o)
         if o['bad']:
             break
@@ -549,6 +673,85 @@ def twin_check(case):
     return bad
 
 
+# ---------------------------------------------------------------------------------------------
+# per-axis subsampling factors (D181): `subsamping` given as an array / list, documented for every detector class
+
+def brute_bins(p, dims, ss):
+    """sum-binning with one factor per axis; p flat (x fastest), dims and ss in (x, y, ..) order"""
+    nd = len(dims)
+    out = [Fraction(0)] * int(np.prod(dims))
+    fine = [d * f for d, f in zip(dims, ss)]
+    for idx in itertools.product(*[range(f) for f in fine[::-1]]):      # slowest first
+        flat = 0
+        cflat = 0
+        for k, i in enumerate(idx):
+            flat = flat * fine[nd - 1 - k] + i
+            cflat = cflat * dims[nd - 1 - k] + i // ss[nd - 1 - k]
+        out[cflat] += p[flat]
+    return out
+
+
+def gen_per_axis(rng, big):
+    ndim = 1 if rng.random() < 0.15 else 2
+    dims = [int(rng.integers(1, 4 if not big else 5)) for _ in range(ndim)]
+    ss = [int(rng.integers(1, 4)) for _ in range(ndim)]
+    nfine = int(np.prod([d * f for d, f in zip(dims, ss)]))
+    nint = int(rng.integers(1, 4))
+    return {'fam': 'per-axis', 'dims': dims, 'ss': ss, 'delta': [float(rng.choice([0.5, 1.0, 2.0])) for _ in range(ndim)],
+            'cls': str(rng.choice(['noiseless', 'noisy-off'])), 'spell': str(rng.choice(['array', 'array', 'list', 'float-array'])),
+            'input': str(rng.choice(['field', 'plain'])),
+            'ints': [[[dyadic(rng, 0, 16, 3) for _ in range(nfine)], dyadic(rng, 0.25, 4, 2), float(rng.choice([1.0, 0.5, 2.0]))] for _ in range(nint)]}
+
+
+def run_per_axis(case):
+    """returns (bad, model lines, comparisons)"""
+    import hcipy
+    bad, lines, cmps = [], [], []
+    dims, ss = case['dims'], case['ss']
+    grid = hcipy.make_uniform_grid(dims, [d * n for d, n in zip(case['delta'], dims)])
+    arg = {'array': lambda: np.array(ss), 'list': lambda: list(ss), 'float-array': lambda: np.array(ss, dtype=float)}[case['spell']]()
+    try:
+        if case['cls'] == 'noiseless':
+            det = hcipy.NoiselessDetector(grid, arg)
+        else:
+            np.random.seed(12345)
+            det = hcipy.NoisyDetector(grid, dark_current_rate=0, read_noise=0, flat_field=0, include_photon_noise=False, subsampling=arg)
+    except Exception as e:  # noqa
+        bad.append(('per-axis-subsampling-raises', '%s(grid %r, subsampling=%r (%s)) raised %s: %s (the docstring promises "if this is an array, the '
+                    'subsampling factor will be different for each dimension")' % (case['cls'], dims, ss, case['spell'], type(e).__name__, str(e)[:80])))
+        return bad, lines, cmps
+    fine = [d * f for d, f in zip(dims, ss)]
+    if [int(d) for d in det.input_grid.dims] != fine:
+        bad.append(('per-axis-input-grid', 'input grid has dims %r, expected %r' % ([int(d) for d in det.input_grid.dims], fine)))
+        return bad, lines, cmps
+    npix = int(np.prod(dims))
+    want = [Fraction(0)] * npix
+    try:
+        for vals, dt, w in case['ints']:
+            a = np.array(vals, dtype=float)
+            det.integrate(hcipy.Field(a, det.input_grid) if case['input'] == 'field' else a, dt, w)
+            b = brute_bins([fr(x) for x in vals], dims, ss)
+            want = [x + y * fr(dt) * fr(w) for x, y in zip(want, b)]
+        im = det.read_out()
+        singles = [det(hcipy.Field(np.array(vals, dtype=float), det.input_grid), 1.0, 1.0) for vals, _, _ in case['ints']]
+        empty = det.read_out()
+    except Exception as e:  # noqa
+        bad.append(('per-axis-subsampling-raises', 'a history on a %s detector with subsampling %r raised %s: %s' % (case['cls'], ss, type(e).__name__, str(e)[:100])))
+        return bad, lines, cmps
+    for name, img, ref in [('read-out', im, want), ('read-out with nothing integrated', empty, [Fraction(0)] * npix)]:
+        arr = np.asarray(img, dtype=float)
+        gr = getattr(img, 'grid', None)
+        if arr.shape != (npix,) or gr is None or not (gr is grid or gr == grid):
+            bad.append(('readout-grid', '%s of a detector with subsampling %r has shape %r / does not live on the detector grid' % (name, ss, arr.shape)))
+        elif max([abs(float(x) - float(y)) for x, y in zip(arr, ref)] + [0.0]) > TOL * max([1.0] + [abs(float(y)) for y in ref]):
+            bad.append(('readout-value', '%s of a detector with per-axis subsampling %r differs from the sum of power*dt*weight over the %r boxes' % (name, ss, ss)))
+    rs, rd = '[' + ','.join(str(f) for f in ss[::-1]) + ']', '[' + ','.join(str(d) for d in dims[::-1]) + ']'
+    for (vals, _, _), img in zip(case['ints'], singles):
+        lines.append('C18 bins sum %s %s %s' % (rs, rd, rat_list(vals)))
+        cmps.append([float(x) for x in np.asarray(img, dtype=float).ravel()])
+    return bad, lines, cmps
+
+
 def all_bad(obs):
     return [b for o in obs for b in o['bad']]
 
@@ -569,6 +772,7 @@ def check_case(ctx, case, lines, index):
     ctx.count('kind:' + case['kind'])
     ctx.count('ndim:%d' % len(case['dims']))
     ctx.count('subsampling:%d' % case['s'])
+    ctx.count('detector-grid:' + ('separated-non-regular' if 'axes' in case else 'regular'))
     ctx.count('style:' + case['style'])
     ctx.count('readouts', nread)
     ctx.count('integrations', nint)
@@ -588,6 +792,8 @@ def check_case(ctx, case, lines, index):
             ctx.count('input:' + op[1])
         if op[0] in ('scribble', 'reuse'):
             ctx.count('caller-' + op[0])
+        if op[0] == 'bad':
+            ctx.count('wrong-size-input:' + op[1])
     sig = (case['kind'], tuple(case['dims']), case['s'], nread, nint, multi > 0, empty > 0)
     ctx.case({'kind': case['kind'], 'dims': case['dims'], 's': case['s'], 'ops': [op[0] for op in case['ops']]} if nread > 1 else None,
              nontrivial_key=sig if nread >= 1 else None)
@@ -605,9 +811,57 @@ def compare_model(ctx, out, case, obs, base):
             if out[base + o['model_int_idx']] != 'ok':
                 ctx.disagree('C17 int', {'case': case, 'model': out[base + o['model_int_idx']], 'impl': o['status']})
                 return
+        if 'model_bad_idx' in o:
+            ctx.traces_validated += 1
+            resp = out[base + o['model_bad_idx']]
+            ctx.count('wrong-size:' + ('refused-by-both' if (resp == 'err value' and o['status'].startswith('raises')) else 'differs'))
+            if not (resp == 'err value' and o['status'].startswith('raises')):
+                ctx.disagree('C17 int wrong-size', {'case': case, 'model': resp, 'impl': o['status']})
+                return
+        for idx, kind, payload in o.get('rchecks', []):
+            resp = out[base + idx]
+            ctx.traces_validated += 1
+            ctx.count('ref-model:' + kind)
+            if kind in ('ok', 'err value'):
+                good = resp == kind
+            elif kind == 'exact':
+                good = resp == payload
+            elif kind == 'read':
+                m = parse_rat_list(resp[3:]) if resp.startswith('ok [') else None
+                good = m is not None and len(m) == len(payload) and all(abs(float(a) - b) <= TOL * max(1.0, abs(float(a))) for a, b in zip(m, payload))
+            else:
+                real, share = payload
+                parts = resp.split(' ')
+                good = len(parts) == 3 and parts[0] == 'ok'
+                if good:
+                    refs = [int(x) for x in parts[1][1:-1].split(',')] if parts[1] != '[]' else []
+                    conts = [] if parts[2] == '-' else [parse_rat_list(c) for c in parts[2].split(';')]
+                    good = len(refs) == len(real) == len(conts)
+                    if good:
+                        # arrays the caller holds: same contents now, and two of them share memory iff the model says they are the same array
+                        for h, (mc, rc) in enumerate(zip(conts, real)):
+                            if rc is not None and (len(mc) != len(rc) or any(abs(float(a) - b) > TOL * max(1.0, abs(float(a))) for a, b in zip(mc, rc))):
+                                good = False
+                        mshare = [(a, b) for a in range(len(refs)) for b in range(a + 1, len(refs))
+                                  if refs[a] == refs[b] and real[a] is not None and real[b] is not None]
+                        if mshare != [tuple(x) for x in share]:
+                            good = False
+            if not good:
+                ctx.disagree('C17 ref-model ' + kind, {'case': case, 'model': resp, 'impl': payload})
+                return
         if 'model_idx' in o and 'got' in o:
             ctx.traces_validated += 1
             resp = out[base + o['model_idx']]
+            if case['kind'] != 'noiseless':
+                # the noisy model also prints its "every noise source is off" flag (PSt.off): compare with the
+                # harness' own account of the parameters the real object has been given
+                resp, _, flag = resp.rpartition(' ')
+                if flag not in ('off', 'on'):
+                    raise MachineryError('noisy read-out without flag: %r' % out[base + o['model_idx']])
+                ctx.count('off-flag:%s' % flag)
+                if (flag == 'off') != bool(o.get('off')):
+                    ctx.disagree('C17 off-flag', {'case': case, 'model': flag, 'impl_off': o.get('off')})
+                    return
             if o.get('random') or resp == 'ok random':
                 if not (o.get('random') and resp == 'ok random'):
                     ctx.disagree('C17 read', {'case': case, 'model': resp, 'impl_random': o.get('random')})
@@ -628,7 +882,8 @@ def compare_model(ctx, out, case, obs, base):
 
 def run(ctx):
     ctx.rule = ('histories of integrate / read_out / __call__ on NoiselessDetector and NoisyDetector (all noise off, or '
-                'deterministic dark current + flat-field map) over regular 1-, 2- and 3-D detector grids with subsampling 1-4; '
+                'deterministic dark current + flat-field map) over regular 1-, 2- and 3-D detector grids with subsampling 1-4 and (12%) '
+                'separated non-regular detector grids with subsampling 1; '
                 'power given as Field, Wavefront, plain ndarray, list, integer or boolean Field; dt and weight dyadic (also Python '
                 'ints); the caller also overwrites images it got back and buffers it passed in. Every read-out is compared '
                 'with an exact Fraction reference (brute-force binning), with the Lean model, with the twin detector kind, for '
@@ -636,7 +891,8 @@ def run(ctx):
                 'read-out; distinct by (kind, dims, subsampling, #read-outs, #integrations, multi-integration seen, empty read-out seen).')
     ctx.assumptions += ['NumPy elementwise arithmetic and reshape/sum follow their specification',
                         'wavefront.power is taken from the real object (how power derives from the field is not part of C17)',
-                        'inputs have the size of detector.input_grid (size validation is not part of the property)']
+                        'a power array of the wrong size must be refused (any exception) and leave the detector unchanged; '
+                        'arrays with the right number of samples but another shape (e.g. 2-D) are not sent']
     n = ctx.scale(2500, 40000)
     cases = list(DIRECTED)
     for k in range(n):
@@ -644,12 +900,39 @@ def run(ctx):
     lines, index = [], []
     for case in cases:
         check_case(ctx, case, lines, index)
+    pa = []
+    for k in range(ctx.scale(200, 2000)):
+        case = gen_per_axis(ctx.rng, big=(ctx.tier == 'thorough' and k % 4 == 0))
+        bad, plines, cmps = run_per_axis(case)
+        for key, what in bad:
+            ctx.violation(key, what, case)
+        ctx.count('per-axis:%s' % case['cls'])
+        ctx.count('per-axis:spelling:' + case['spell'])
+        ctx.count('per-axis:' + ('different-factors' if len(set(case['ss'])) > 1 else 'equal-factors'))
+        ctx.case(None, nontrivial_key=('per-axis', tuple(case['dims']), tuple(case['ss']), case['cls'], len(case['ints'])))
+        if not bad:
+            pa.append((case, len(lines), cmps))
+            lines += plines
     out = ctx.model(lines)
     for case, obs, base in index:
         compare_model(ctx, out, case, obs, base)
+    for case, base, cmps in pa:
+        # the images of single integrations (dt = weight = 1) against the per-axis binning model `binNDs` (C18 op `bins`)
+        for k, got in enumerate(cmps):
+            ctx.traces_validated += 1
+            resp = out[base + k]
+            m = parse_rat_list(resp[3:]) if resp.startswith('ok [') else None
+            if m is None or len(m) != len(got) or any(abs(float(a) - b) > TOL * max(1.0, abs(float(a))) for a, b in zip(m, got)):
+                ctx.disagree('C17 per-axis bins', {'case': case, 'model': resp, 'impl': got})
+                break
 
 
 def replay(ctx, case):
+    if case.get('fam') == 'per-axis':
+        bad = run_per_axis(case)[0]
+        for key, what in bad:
+            print('  fails:', key, '-', what)
+        return not bad
     obs, _ = run_real(case)
     bad = all_bad(obs)
     if not bad:
